@@ -50,6 +50,10 @@ def canon_map(G, p):
         elif s["t"] == "term" and s["name"].startswith("r#") and '"' in s["name"]:
             if nm and nm != "_":
                 m[f"len({nm})"] = "strlen"
+        elif s["t"] == "nt" and nm and nm != "_":
+            # a text handed up by a nonterminal that wraps the quoted-string token (its length is a polynomial over
+            # the token's length, written len(<name>~) by the evaluator)
+            m[f"len({nm}~)"] = "strlen"
     return m
 
 
